@@ -84,13 +84,11 @@ theorem gconv_val (X Y : GFn) (hb : kw.bcoh ≠ 0) (hrho : 0 < kw.rho) (r y : Ve
     (hlen : r.length = y.length) :
     (GenTable.gconv X Y kw junk r y dy).1 = List.zipWith (Spec.gconv kw X Y) r y := by
   have hpi := Real.pi_pos
-  have hc : 0 < 4 * Real.pi * kw.rho := by positivity
-  have hg : ∀ r : ℝ, (0 < 4 * Real.pi * kw.rho * r) ↔ 0 < r := fun r =>
-    ⟨fun h => by by_contra hn; nlinarith [mul_nonpos_of_nonneg_of_nonpos hc.le (not_lt.mp hn)], fun h => by positivity⟩
   cases X <;> cases Y <;> simp only [GenTable.gconv, GenTable.ident] <;>
     first
     | rfl
-    | (pointwise2 r y hlen [Spec.gconv, hg]
+    | (pointwise2 r y hlen [Spec.gconv]
+       try (simp (disch := positivity) only [mul_pos_iff_of_pos_left, mul_pos_iff_of_pos_right])
        try conv_close)
 
 theorem gconv_unc (X Y : GFn) (hb : kw.bcoh ≠ 0) (hrho : 0 < kw.rho) (r y : Vec ℝ) (dy : Option (Vec ℝ))
@@ -98,16 +96,15 @@ theorem gconv_unc (X Y : GFn) (hb : kw.bcoh ≠ 0) (hrho : 0 < kw.rho) (r y : Ve
     (GenTable.gconv X Y kw junk r y dy).2
       = List.zipWith (fun r e => Spec.gslope kw X Y r * e) r (dy.getD (Vec.zerosLike y)) := by
   have hpi := Real.pi_pos
-  have hc : 0 < 4 * Real.pi * kw.rho := by positivity
-  have hg : ∀ r : ℝ, (0 < 4 * Real.pi * kw.rho * r) ↔ 0 < r := fun r =>
-    ⟨fun h => by by_contra hn; nlinarith [mul_nonpos_of_nonneg_of_nonpos hc.le (not_lt.mp hn)], fun h => by positivity⟩
   rcases dy with _ | d
   · cases X <;> cases Y <;> simp only [GenTable.gconv, GenTable.ident, Option.getD] <;>
-      (pointwise2 r y hlen [Spec.gslope, hg]
+      (pointwise2 r y hlen [Spec.gslope]
+       try (simp (disch := positivity) only [mul_pos_iff_of_pos_left, mul_pos_iff_of_pos_right])
        try conv_close)
   · have hlen' := hd d rfl
     cases X <;> cases Y <;> simp only [GenTable.gconv, GenTable.ident, Option.getD] <;>
-      (pointwise2 r d hlen' [Spec.gslope, hg]
+      (pointwise2 r d hlen' [Spec.gslope]
+       try (simp (disch := positivity) only [mul_pos_iff_of_pos_left, mul_pos_iff_of_pos_right])
        try conv_close)
 
 end
